@@ -9,6 +9,7 @@ inside a Chain, a Vector delegating to its components).  The tolerance of the sp
 number of a Green's matrix the reference builds from its own kernels (``vmon.ref``), never from verde's Jacobian.
 """
 import collections
+import contextlib
 import warnings
 import weakref
 
@@ -35,7 +36,10 @@ RULE = (
     "in [-1,1] and mindist>0, KNeighbors() / k=1 with mean/median/max, Linear/Cubic with rescale on/off, ScipyGridder "
     "linear/nearest/cubic, Chains [Trend(0..2), exact], nested Chains, Vectors of exact gridders and of Chains, vector Chains "
     "ending in VectorSpline2D) and predicted at the fitted coordinates (also after the caller overwrote its own arrays); "
-    "FORCES_ORDER stream: undamped Spline / VectorSpline2D (alone and as the last step of a Chain) with EXPLICIT force_coords that are the data points "
+    "LARGE_PREDICT stream: one predict call on more than 2**17 points (131073, 200000, 400x400, 450x600; C or Fortran grids) for KNeighbors(k=1) alone, "
+    "in a Chain and in a Vector, Spline, VectorSpline2D, Linear, Cubic and Chain[Trend, Spline], the fitted points sitting at declared positions of the "
+    "query (also the very last ones and position 2**17) where they are judged; ERRSTATE stream: the spline / vspline / knn / scipy / chain / vector / "
+    "trend_poly / forces_order workloads with every verde call made inside np.errstate(all='raise'); FORCES_ORDER stream: undamped Spline / VectorSpline2D (alone and as the last step of a Chain) with EXPLICIT force_coords that are the data points "
     "listed in the same order, reversed, sorted, shuffled or as np.unique output, held in tuples / lists of arrays, 2-D arrays, lists of floats or "
     "strided column views (still 'forces at the data': the square system is not symmetric then); SPELLINGS stream: k, mindist, poisson, degree, rescale "
     "given as Python int, numpy integer, numpy floating or 0-d array; HISTORY stream: the same Spline / VectorSpline2D / KNeighbors / Linear / Cubic / Trend / Chain / Vector object fitted again (after predict / grid / "
@@ -61,11 +65,15 @@ ASSUMPTIONS = [
     "VectorSpline2D: the forces are documented to sit at the data of the first successful fit while force_coords is None and to stay there until "
     "the parameter is set again; the monitor tracks this over the object's history (a refit without resetting force_coords is classified not exact, "
     "a fit() that raised does not count as the first fit)",
+    "callers with numpy floating-point errors set to raise (np.errstate(all='raise')) are in scope for the configurations of the ERRSTATE stream, all of "
+    "which complete on the unchanged code (surveyed: 400 clouds x 12 configurations without a FloatingPointError); there a FloatingPointError is a failure "
+    "to reproduce the data; the monitors themselves always decide under numpy's default error handling",
+    "a predict call at a declared large query is judged at the positions holding the fitted points (verified by the monitor against its own record)",
     "the fitted points are pairwise distinct (cases with duplicates are skipped, the statement quantifies over distinct points)",
 ]
 FLOORS = {
-    "quick": {'eval:spline_exact': 450, 'eval:vspline_exact': 133, 'eval:knn_exact': 271, 'eval:scipy_exact': 497, 'eval:chain_exact': 201, 'eval:vector_exact': 53, 'eval:trend_reproduction': 598, 'informative_kappa_ge_1e6:spline': 75, 'informative_kappa_ge_1e6:trend': 115, 'distinct_nontrivial': 1350, 'layout:coordinates:2d_fortran': 150, 'layout:coordinates:2d_transposed_view': 140, 'layout:coordinates:2d_strided': 150, 'layout:coordinates:1d_series': 250, 'layout:data:2d_fortran': 70, 'layout:data:2d_transposed_view': 80, 'layout:data:2d_strided': 80, 'layout:data:2d_negative_stride': 80, 'layout:data:1d_series': 140, 'layout:data_laid_out_differently_from_coordinates': 800, 'data_magnitude:1e+00': 683, 'data_magnitude:1e+03': 64, 'data_magnitude:1e+06': 56, 'data_magnitude:1e+09': 55, 'data_magnitude:1e+12': 48, 'data_magnitude:1e+15': 63, 'data_magnitude:1e-03': 52, 'data_magnitude:1e-06': 48, 'data_magnitude:1e-09': 55, 'data_magnitude:1e-12': 56, 'data_magnitude:1e-15': 48, 'size_class:knn:127': 1, 'size_class:knn:128': 1, 'size_class:knn:129': 1, 'size_class:knn:255': 1, 'size_class:knn:256': 1, 'size_class:knn:257': 1, 'size_class:knn:385': 1, 'size_class:knn:513': 1, 'size_class:linear:127': 1, 'size_class:linear:128': 1, 'size_class:linear:129': 1, 'size_class:linear:255': 1, 'size_class:linear:256': 1, 'size_class:linear:257': 1, 'size_class:linear:385': 1, 'size_class:linear:513': 1, 'size_class:spline:127': 1, 'size_class:spline:128': 1, 'size_class:spline:129': 1, 'size_class:spline:255': 1, 'size_class:spline:256': 1, 'size_class:spline:257': 1, 'size_class:spline:385': 1, 'size_class:spline:513': 1, 'size_class:vspline:127': 1, 'size_class:vspline:128': 1, 'size_class:vspline:129': 1, 'size_class:vspline:255': 1, 'size_class:vspline:256': 1, 'size_class:vspline:257': 1, 'size_class:vspline:385': 1, 'size_class:vspline:513': 1, 'history:error_then_fit:chain': 2, 'history:error_then_fit:cubic': 2, 'history:error_then_fit:knn': 2, 'history:error_then_fit:linear': 2, 'history:error_then_fit:spline': 2, 'history:error_then_fit:trend': 2, 'history:error_then_fit:vector': 2, 'history:error_then_fit:vspline': 2, 'history:held_instances_reconfigured': 7, 'history:reconfigure_after_use:chain': 2, 'history:reconfigure_after_use:cubic': 2, 'history:reconfigure_after_use:knn': 2, 'history:reconfigure_after_use:linear': 2, 'history:reconfigure_after_use:spline': 2, 'history:reconfigure_after_use:trend': 2, 'history:reconfigure_after_use:vector': 2, 'history:reconfigure_after_use:vspline': 2, 'history:reconfigure_before_use:chain': 2, 'history:reconfigure_before_use:cubic': 2, 'history:reconfigure_before_use:knn': 2, 'history:reconfigure_before_use:linear': 2, 'history:reconfigure_before_use:spline': 2, 'history:reconfigure_before_use:trend': 2, 'history:reconfigure_before_use:vector': 2, 'history:reconfigure_before_use:vspline': 2, 'history:refit_after_use:chain': 2, 'history:refit_after_use:cubic': 2, 'history:refit_after_use:knn': 2, 'history:refit_after_use:linear': 2, 'history:refit_after_use:spline': 2, 'history:refit_after_use:trend': 2, 'history:refit_after_use:vector': 2, 'history:refit_after_use:vspline': 2, 'history:refit_directly:chain': 2, 'history:refit_directly:cubic': 2, 'history:refit_directly:knn': 2, 'history:refit_directly:linear': 2, 'history:refit_directly:spline': 2, 'history:refit_directly:trend': 2, 'history:refit_directly:vector': 2, 'history:refit_directly:vspline': 2, 'history:refit_same_arrays_new_contents:chain': 2, 'history:refit_same_arrays_new_contents:cubic': 2, 'history:refit_same_arrays_new_contents:knn': 2, 'history:refit_same_arrays_new_contents:linear': 2, 'history:refit_same_arrays_new_contents:spline': 2, 'history:refit_same_arrays_new_contents:trend': 2, 'history:refit_same_arrays_new_contents:vector': 2, 'history:refit_same_arrays_new_contents:vspline': 2, 'history:size_change:equal': 21, 'history:size_change:larger': 28, 'history:size_change:smaller': 21, 'history:use:filter': 9, 'history:use:grid': 6, 'history:use:nothing': 7, 'history:use:predict_data': 4, 'history:use:predict_elsewhere': 8, 'history:use:score': 7, 'history:via_attribute_assignment': 10, 'history:via_set_params': 11, 'fit_raised:vspline:ValueError': 2, 'explicit_forces_at_the_data:spline:other_order': 16, 'explicit_forces_at_the_data:spline:same_order': 4, 'explicit_forces_at_the_data:vspline:other_order': 16, 'explicit_forces_at_the_data:vspline:same_order': 4, 'forces_container:list_of_arrays': 6, 'forces_container:strided_columns': 14, 'forces_container:tuple_of_2d_arrays': 6, 'forces_container:tuple_of_arrays': 6, 'forces_container:tuple_of_lists': 6, 'forces_order:chain_spline:np_unique': 2, 'forces_order:chain_spline:reversed': 2, 'forces_order:chain_spline:same_order': 2, 'forces_order:chain_spline:shuffled': 2, 'forces_order:chain_spline:sorted': 2, 'forces_order:chain_vspline:np_unique': 2, 'forces_order:chain_vspline:reversed': 2, 'forces_order:chain_vspline:same_order': 2, 'forces_order:chain_vspline:shuffled': 2, 'forces_order:chain_vspline:sorted': 2, 'forces_order:spline:np_unique': 2, 'forces_order:spline:reversed': 2, 'forces_order:spline:same_order': 2, 'forces_order:spline:shuffled': 2, 'forces_order:spline:sorted': 2, 'forces_order:vspline:np_unique': 2, 'forces_order:vspline:reversed': 2, 'forces_order:vspline:same_order': 2, 'forces_order:vspline:shuffled': 2, 'forces_order:vspline:sorted': 2, 'spelling:knn_k:int32': 1, 'spelling:knn_k:int64': 1, 'spelling:knn_k:int8': 1, 'spelling:knn_k:uint8': 1, 'spelling:scipy_rescale:bool(False)': 1, 'spelling:scipy_rescale:bool(True)': 1, 'spelling:scipy_rescale:int(False)': 1, 'spelling:scipy_rescale:int(True)': 1, 'spelling:spline_mindist:0-d array': 1, 'spelling:spline_mindist:int': 1, 'spelling:spline_mindist:np.float32': 1, 'spelling:spline_mindist:np.int64': 1, 'spelling:trend_degree:0-d array': 1, 'spelling:trend_degree:int32': 1, 'spelling:trend_degree:int64': 1, 'spelling:trend_degree:uint8': 1, 'spelling:vspline_mindist:0-d array': 1, 'spelling:vspline_mindist:int': 1, 'spelling:vspline_mindist:np.float32': 1, 'spelling:vspline_mindist:np.int64': 1, 'spelling:vspline_poisson:float32(0.5)': 1, 'spelling:vspline_poisson:int(-1)': 1, 'spelling:vspline_poisson:int(0)': 1, 'spelling:vspline_poisson:int(1)': 1, 'spelling:vspline_poisson:int64(-1)': 1, 'spelling:vspline_poisson:int64(0)': 1, 'spelling:vspline_poisson:ndarray(0.25)': 1, 'spelling:vspline_poisson:ndarray(1)': 1},
-    "thorough": {'eval:spline_exact': 8114, 'eval:vspline_exact': 2404, 'eval:knn_exact': 4881, 'eval:scipy_exact': 8949, 'eval:chain_exact': 3628, 'eval:vector_exact': 957, 'eval:trend_reproduction': 10763, 'informative_kappa_ge_1e6:spline': 1500, 'informative_kappa_ge_1e6:trend': 2300, 'distinct_nontrivial': 27000, 'layout:coordinates:2d_fortran': 3000, 'layout:coordinates:2d_transposed_view': 2800, 'layout:coordinates:2d_strided': 3000, 'layout:coordinates:1d_series': 5000, 'layout:data:2d_fortran': 1400, 'layout:data:2d_transposed_view': 1600, 'layout:data:2d_strided': 1600, 'layout:data:2d_negative_stride': 1600, 'layout:data:1d_series': 2800, 'layout:data_laid_out_differently_from_coordinates': 16000, 'data_magnitude:1e+00': 12294, 'data_magnitude:1e+03': 1152, 'data_magnitude:1e+06': 1008, 'data_magnitude:1e+09': 990, 'data_magnitude:1e+12': 864, 'data_magnitude:1e+15': 1134, 'data_magnitude:1e-03': 936, 'data_magnitude:1e-06': 864, 'data_magnitude:1e-09': 990, 'data_magnitude:1e-12': 1008, 'data_magnitude:1e-15': 864, 'size_class:knn:127': 8, 'size_class:knn:128': 8, 'size_class:knn:129': 8, 'size_class:knn:255': 8, 'size_class:knn:256': 8, 'size_class:knn:257': 8, 'size_class:knn:385': 8, 'size_class:knn:513': 8, 'size_class:linear:127': 8, 'size_class:linear:128': 8, 'size_class:linear:129': 8, 'size_class:linear:255': 8, 'size_class:linear:256': 8, 'size_class:linear:257': 8, 'size_class:linear:385': 8, 'size_class:linear:513': 8, 'size_class:spline:127': 8, 'size_class:spline:128': 8, 'size_class:spline:129': 8, 'size_class:spline:255': 8, 'size_class:spline:256': 8, 'size_class:spline:257': 8, 'size_class:spline:385': 8, 'size_class:spline:513': 8, 'size_class:vspline:127': 8, 'size_class:vspline:128': 8, 'size_class:vspline:129': 8, 'size_class:vspline:255': 8, 'size_class:vspline:256': 8, 'size_class:vspline:257': 8, 'size_class:vspline:385': 8, 'size_class:vspline:513': 8, 'history:error_then_fit:chain': 32, 'history:error_then_fit:cubic': 32, 'history:error_then_fit:knn': 32, 'history:error_then_fit:linear': 32, 'history:error_then_fit:spline': 32, 'history:error_then_fit:trend': 32, 'history:error_then_fit:vector': 32, 'history:error_then_fit:vspline': 32, 'history:held_instances_reconfigured': 129, 'history:reconfigure_after_use:chain': 32, 'history:reconfigure_after_use:cubic': 32, 'history:reconfigure_after_use:knn': 32, 'history:reconfigure_after_use:linear': 32, 'history:reconfigure_after_use:spline': 32, 'history:reconfigure_after_use:trend': 32, 'history:reconfigure_after_use:vector': 32, 'history:reconfigure_after_use:vspline': 32, 'history:reconfigure_before_use:chain': 32, 'history:reconfigure_before_use:cubic': 32, 'history:reconfigure_before_use:knn': 32, 'history:reconfigure_before_use:linear': 32, 'history:reconfigure_before_use:spline': 32, 'history:reconfigure_before_use:trend': 32, 'history:reconfigure_before_use:vector': 32, 'history:reconfigure_before_use:vspline': 32, 'history:refit_after_use:chain': 32, 'history:refit_after_use:cubic': 32, 'history:refit_after_use:knn': 32, 'history:refit_after_use:linear': 32, 'history:refit_after_use:spline': 32, 'history:refit_after_use:trend': 32, 'history:refit_after_use:vector': 32, 'history:refit_after_use:vspline': 32, 'history:refit_directly:chain': 32, 'history:refit_directly:cubic': 32, 'history:refit_directly:knn': 32, 'history:refit_directly:linear': 32, 'history:refit_directly:spline': 32, 'history:refit_directly:trend': 32, 'history:refit_directly:vector': 32, 'history:refit_directly:vspline': 32, 'history:refit_same_arrays_new_contents:chain': 32, 'history:refit_same_arrays_new_contents:cubic': 32, 'history:refit_same_arrays_new_contents:knn': 32, 'history:refit_same_arrays_new_contents:linear': 32, 'history:refit_same_arrays_new_contents:spline': 32, 'history:refit_same_arrays_new_contents:trend': 32, 'history:refit_same_arrays_new_contents:vector': 32, 'history:refit_same_arrays_new_contents:vspline': 32, 'history:size_change:equal': 394, 'history:size_change:larger': 513, 'history:size_change:smaller': 388, 'history:use:filter': 172, 'history:use:grid': 118, 'history:use:nothing': 129, 'history:use:predict_data': 81, 'history:use:predict_elsewhere': 145, 'history:use:score': 129, 'history:via_attribute_assignment': 183, 'history:via_set_params': 205, 'fit_raised:vspline:ValueError': 32, 'explicit_forces_at_the_data:spline:other_order': 256, 'explicit_forces_at_the_data:spline:same_order': 64, 'explicit_forces_at_the_data:vspline:other_order': 256, 'explicit_forces_at_the_data:vspline:same_order': 64, 'forces_container:list_of_arrays': 96, 'forces_container:strided_columns': 224, 'forces_container:tuple_of_2d_arrays': 96, 'forces_container:tuple_of_arrays': 96, 'forces_container:tuple_of_lists': 96, 'forces_order:chain_spline:np_unique': 32, 'forces_order:chain_spline:reversed': 32, 'forces_order:chain_spline:same_order': 32, 'forces_order:chain_spline:shuffled': 32, 'forces_order:chain_spline:sorted': 32, 'forces_order:chain_vspline:np_unique': 32, 'forces_order:chain_vspline:reversed': 32, 'forces_order:chain_vspline:same_order': 32, 'forces_order:chain_vspline:shuffled': 32, 'forces_order:chain_vspline:sorted': 32, 'forces_order:spline:np_unique': 32, 'forces_order:spline:reversed': 32, 'forces_order:spline:same_order': 32, 'forces_order:spline:shuffled': 32, 'forces_order:spline:sorted': 32, 'forces_order:vspline:np_unique': 32, 'forces_order:vspline:reversed': 32, 'forces_order:vspline:same_order': 32, 'forces_order:vspline:shuffled': 32, 'forces_order:vspline:sorted': 32, 'spelling:knn_k:int32': 16, 'spelling:knn_k:int64': 16, 'spelling:knn_k:int8': 16, 'spelling:knn_k:uint8': 16, 'spelling:scipy_rescale:bool(False)': 16, 'spelling:scipy_rescale:bool(True)': 16, 'spelling:scipy_rescale:int(False)': 16, 'spelling:scipy_rescale:int(True)': 16, 'spelling:spline_mindist:0-d array': 16, 'spelling:spline_mindist:int': 16, 'spelling:spline_mindist:np.float32': 16, 'spelling:spline_mindist:np.int64': 16, 'spelling:trend_degree:0-d array': 16, 'spelling:trend_degree:int32': 16, 'spelling:trend_degree:int64': 16, 'spelling:trend_degree:uint8': 16, 'spelling:vspline_mindist:0-d array': 16, 'spelling:vspline_mindist:int': 16, 'spelling:vspline_mindist:np.float32': 16, 'spelling:vspline_mindist:np.int64': 16, 'spelling:vspline_poisson:float32(0.5)': 16, 'spelling:vspline_poisson:int(-1)': 16, 'spelling:vspline_poisson:int(0)': 16, 'spelling:vspline_poisson:int(1)': 16, 'spelling:vspline_poisson:int64(-1)': 16, 'spelling:vspline_poisson:int64(0)': 16, 'spelling:vspline_poisson:ndarray(0.25)': 16, 'spelling:vspline_poisson:ndarray(1)': 16},
+    "quick": {'eval:spline_exact': 467, 'eval:vspline_exact': 143, 'eval:knn_exact': 287, 'eval:scipy_exact': 518, 'eval:chain_exact': 213, 'eval:vector_exact': 56, 'eval:trend_reproduction': 613, 'informative_kappa_ge_1e6:spline': 75, 'informative_kappa_ge_1e6:trend': 115, 'distinct_nontrivial': 1350, 'layout:coordinates:2d_fortran': 150, 'layout:coordinates:2d_transposed_view': 140, 'layout:coordinates:2d_strided': 150, 'layout:coordinates:1d_series': 250, 'layout:data:2d_fortran': 70, 'layout:data:2d_transposed_view': 80, 'layout:data:2d_strided': 80, 'layout:data:2d_negative_stride': 80, 'layout:data:1d_series': 140, 'layout:data_laid_out_differently_from_coordinates': 800, 'data_magnitude:1e+00': 683, 'data_magnitude:1e+03': 64, 'data_magnitude:1e+06': 56, 'data_magnitude:1e+09': 55, 'data_magnitude:1e+12': 48, 'data_magnitude:1e+15': 63, 'data_magnitude:1e-03': 52, 'data_magnitude:1e-06': 48, 'data_magnitude:1e-09': 55, 'data_magnitude:1e-12': 56, 'data_magnitude:1e-15': 48, 'size_class:knn:127': 1, 'size_class:knn:128': 1, 'size_class:knn:129': 1, 'size_class:knn:255': 1, 'size_class:knn:256': 1, 'size_class:knn:257': 1, 'size_class:knn:385': 1, 'size_class:knn:513': 1, 'size_class:linear:127': 1, 'size_class:linear:128': 1, 'size_class:linear:129': 1, 'size_class:linear:255': 1, 'size_class:linear:256': 1, 'size_class:linear:257': 1, 'size_class:linear:385': 1, 'size_class:linear:513': 1, 'size_class:spline:127': 1, 'size_class:spline:128': 1, 'size_class:spline:129': 1, 'size_class:spline:255': 1, 'size_class:spline:256': 1, 'size_class:spline:257': 1, 'size_class:spline:385': 1, 'size_class:spline:513': 1, 'size_class:vspline:127': 1, 'size_class:vspline:128': 1, 'size_class:vspline:129': 1, 'size_class:vspline:255': 1, 'size_class:vspline:256': 1, 'size_class:vspline:257': 1, 'size_class:vspline:385': 1, 'size_class:vspline:513': 1, 'history:error_then_fit:chain': 2, 'history:error_then_fit:cubic': 2, 'history:error_then_fit:knn': 2, 'history:error_then_fit:linear': 2, 'history:error_then_fit:spline': 2, 'history:error_then_fit:trend': 2, 'history:error_then_fit:vector': 2, 'history:error_then_fit:vspline': 2, 'history:held_instances_reconfigured': 7, 'history:reconfigure_after_use:chain': 2, 'history:reconfigure_after_use:cubic': 2, 'history:reconfigure_after_use:knn': 2, 'history:reconfigure_after_use:linear': 2, 'history:reconfigure_after_use:spline': 2, 'history:reconfigure_after_use:trend': 2, 'history:reconfigure_after_use:vector': 2, 'history:reconfigure_after_use:vspline': 2, 'history:reconfigure_before_use:chain': 2, 'history:reconfigure_before_use:cubic': 2, 'history:reconfigure_before_use:knn': 2, 'history:reconfigure_before_use:linear': 2, 'history:reconfigure_before_use:spline': 2, 'history:reconfigure_before_use:trend': 2, 'history:reconfigure_before_use:vector': 2, 'history:reconfigure_before_use:vspline': 2, 'history:refit_after_use:chain': 2, 'history:refit_after_use:cubic': 2, 'history:refit_after_use:knn': 2, 'history:refit_after_use:linear': 2, 'history:refit_after_use:spline': 2, 'history:refit_after_use:trend': 2, 'history:refit_after_use:vector': 2, 'history:refit_after_use:vspline': 2, 'history:refit_directly:chain': 2, 'history:refit_directly:cubic': 2, 'history:refit_directly:knn': 2, 'history:refit_directly:linear': 2, 'history:refit_directly:spline': 2, 'history:refit_directly:trend': 2, 'history:refit_directly:vector': 2, 'history:refit_directly:vspline': 2, 'history:refit_same_arrays_new_contents:chain': 2, 'history:refit_same_arrays_new_contents:cubic': 2, 'history:refit_same_arrays_new_contents:knn': 2, 'history:refit_same_arrays_new_contents:linear': 2, 'history:refit_same_arrays_new_contents:spline': 2, 'history:refit_same_arrays_new_contents:trend': 2, 'history:refit_same_arrays_new_contents:vector': 2, 'history:refit_same_arrays_new_contents:vspline': 2, 'history:size_change:equal': 21, 'history:size_change:larger': 28, 'history:size_change:smaller': 21, 'history:use:filter': 9, 'history:use:grid': 6, 'history:use:nothing': 7, 'history:use:predict_data': 4, 'history:use:predict_elsewhere': 8, 'history:use:score': 7, 'history:via_attribute_assignment': 10, 'history:via_set_params': 11, 'fit_raised:vspline:ValueError': 2, 'explicit_forces_at_the_data:spline:other_order': 16, 'explicit_forces_at_the_data:spline:same_order': 4, 'explicit_forces_at_the_data:vspline:other_order': 16, 'explicit_forces_at_the_data:vspline:same_order': 4, 'forces_container:list_of_arrays': 6, 'forces_container:strided_columns': 14, 'forces_container:tuple_of_2d_arrays': 6, 'forces_container:tuple_of_arrays': 6, 'forces_container:tuple_of_lists': 6, 'forces_order:chain_spline:np_unique': 2, 'forces_order:chain_spline:reversed': 2, 'forces_order:chain_spline:same_order': 2, 'forces_order:chain_spline:shuffled': 2, 'forces_order:chain_spline:sorted': 2, 'forces_order:chain_vspline:np_unique': 2, 'forces_order:chain_vspline:reversed': 2, 'forces_order:chain_vspline:same_order': 2, 'forces_order:chain_vspline:shuffled': 2, 'forces_order:chain_vspline:sorted': 2, 'forces_order:spline:np_unique': 2, 'forces_order:spline:reversed': 2, 'forces_order:spline:same_order': 2, 'forces_order:spline:shuffled': 2, 'forces_order:spline:sorted': 2, 'forces_order:vspline:np_unique': 2, 'forces_order:vspline:reversed': 2, 'forces_order:vspline:same_order': 2, 'forces_order:vspline:shuffled': 2, 'forces_order:vspline:sorted': 2, 'spelling:knn_k:int32': 1, 'spelling:knn_k:int64': 1, 'spelling:knn_k:int8': 1, 'spelling:knn_k:uint8': 1, 'spelling:scipy_rescale:bool(False)': 1, 'spelling:scipy_rescale:bool(True)': 1, 'spelling:scipy_rescale:int(False)': 1, 'spelling:scipy_rescale:int(True)': 1, 'spelling:spline_mindist:0-d array': 1, 'spelling:spline_mindist:int': 1, 'spelling:spline_mindist:np.float32': 1, 'spelling:spline_mindist:np.int64': 1, 'spelling:trend_degree:0-d array': 1, 'spelling:trend_degree:int32': 1, 'spelling:trend_degree:int64': 1, 'spelling:trend_degree:uint8': 1, 'spelling:vspline_mindist:0-d array': 1, 'spelling:vspline_mindist:int': 1, 'spelling:vspline_mindist:np.float32': 1, 'spelling:vspline_mindist:np.int64': 1, 'spelling:vspline_poisson:float32(0.5)': 1, 'spelling:vspline_poisson:int(-1)': 1, 'spelling:vspline_poisson:int(0)': 1, 'spelling:vspline_poisson:int(1)': 1, 'spelling:vspline_poisson:int64(-1)': 1, 'spelling:vspline_poisson:int64(0)': 1, 'spelling:vspline_poisson:ndarray(0.25)': 1, 'spelling:vspline_poisson:ndarray(1)': 1, 'errstate_raise:chain': 3, 'errstate_raise:forces_order': 3, 'errstate_raise:knn': 3, 'errstate_raise:scipy': 3, 'errstate_raise:spline': 3, 'errstate_raise:trend_poly': 3, 'errstate_raise:vector': 3, 'errstate_raise:vspline': 3, 'judged_inside_a_large_query:chain': 1, 'judged_inside_a_large_query:knn': 1, 'judged_inside_a_large_query:scipy': 1, 'judged_inside_a_large_query:spline': 1, 'judged_inside_a_large_query:vector': 1, 'judged_inside_a_large_query:vspline': 1, 'large_predict:chain_knn:200000': 1, 'large_predict:chain_spline:450x600': 1, 'large_predict:cubic:400x400': 1, 'large_predict:knn:131073': 1, 'large_predict:linear:200000': 1, 'large_predict:spline:450x600': 1, 'large_predict:vector_knn:400x400': 1, 'large_predict:vspline:131073': 1},
+    "thorough": {'eval:spline_exact': 8416, 'eval:vspline_exact': 2577, 'eval:knn_exact': 5176, 'eval:scipy_exact': 9338, 'eval:chain_exact': 3837, 'eval:vector_exact': 1022, 'eval:trend_reproduction': 11037, 'informative_kappa_ge_1e6:spline': 1500, 'informative_kappa_ge_1e6:trend': 2300, 'distinct_nontrivial': 27000, 'layout:coordinates:2d_fortran': 3000, 'layout:coordinates:2d_transposed_view': 2800, 'layout:coordinates:2d_strided': 3000, 'layout:coordinates:1d_series': 5000, 'layout:data:2d_fortran': 1400, 'layout:data:2d_transposed_view': 1600, 'layout:data:2d_strided': 1600, 'layout:data:2d_negative_stride': 1600, 'layout:data:1d_series': 2800, 'layout:data_laid_out_differently_from_coordinates': 16000, 'data_magnitude:1e+00': 12294, 'data_magnitude:1e+03': 1152, 'data_magnitude:1e+06': 1008, 'data_magnitude:1e+09': 990, 'data_magnitude:1e+12': 864, 'data_magnitude:1e+15': 1134, 'data_magnitude:1e-03': 936, 'data_magnitude:1e-06': 864, 'data_magnitude:1e-09': 990, 'data_magnitude:1e-12': 1008, 'data_magnitude:1e-15': 864, 'size_class:knn:127': 8, 'size_class:knn:128': 8, 'size_class:knn:129': 8, 'size_class:knn:255': 8, 'size_class:knn:256': 8, 'size_class:knn:257': 8, 'size_class:knn:385': 8, 'size_class:knn:513': 8, 'size_class:linear:127': 8, 'size_class:linear:128': 8, 'size_class:linear:129': 8, 'size_class:linear:255': 8, 'size_class:linear:256': 8, 'size_class:linear:257': 8, 'size_class:linear:385': 8, 'size_class:linear:513': 8, 'size_class:spline:127': 8, 'size_class:spline:128': 8, 'size_class:spline:129': 8, 'size_class:spline:255': 8, 'size_class:spline:256': 8, 'size_class:spline:257': 8, 'size_class:spline:385': 8, 'size_class:spline:513': 8, 'size_class:vspline:127': 8, 'size_class:vspline:128': 8, 'size_class:vspline:129': 8, 'size_class:vspline:255': 8, 'size_class:vspline:256': 8, 'size_class:vspline:257': 8, 'size_class:vspline:385': 8, 'size_class:vspline:513': 8, 'history:error_then_fit:chain': 32, 'history:error_then_fit:cubic': 32, 'history:error_then_fit:knn': 32, 'history:error_then_fit:linear': 32, 'history:error_then_fit:spline': 32, 'history:error_then_fit:trend': 32, 'history:error_then_fit:vector': 32, 'history:error_then_fit:vspline': 32, 'history:held_instances_reconfigured': 129, 'history:reconfigure_after_use:chain': 32, 'history:reconfigure_after_use:cubic': 32, 'history:reconfigure_after_use:knn': 32, 'history:reconfigure_after_use:linear': 32, 'history:reconfigure_after_use:spline': 32, 'history:reconfigure_after_use:trend': 32, 'history:reconfigure_after_use:vector': 32, 'history:reconfigure_after_use:vspline': 32, 'history:reconfigure_before_use:chain': 32, 'history:reconfigure_before_use:cubic': 32, 'history:reconfigure_before_use:knn': 32, 'history:reconfigure_before_use:linear': 32, 'history:reconfigure_before_use:spline': 32, 'history:reconfigure_before_use:trend': 32, 'history:reconfigure_before_use:vector': 32, 'history:reconfigure_before_use:vspline': 32, 'history:refit_after_use:chain': 32, 'history:refit_after_use:cubic': 32, 'history:refit_after_use:knn': 32, 'history:refit_after_use:linear': 32, 'history:refit_after_use:spline': 32, 'history:refit_after_use:trend': 32, 'history:refit_after_use:vector': 32, 'history:refit_after_use:vspline': 32, 'history:refit_directly:chain': 32, 'history:refit_directly:cubic': 32, 'history:refit_directly:knn': 32, 'history:refit_directly:linear': 32, 'history:refit_directly:spline': 32, 'history:refit_directly:trend': 32, 'history:refit_directly:vector': 32, 'history:refit_directly:vspline': 32, 'history:refit_same_arrays_new_contents:chain': 32, 'history:refit_same_arrays_new_contents:cubic': 32, 'history:refit_same_arrays_new_contents:knn': 32, 'history:refit_same_arrays_new_contents:linear': 32, 'history:refit_same_arrays_new_contents:spline': 32, 'history:refit_same_arrays_new_contents:trend': 32, 'history:refit_same_arrays_new_contents:vector': 32, 'history:refit_same_arrays_new_contents:vspline': 32, 'history:size_change:equal': 394, 'history:size_change:larger': 513, 'history:size_change:smaller': 388, 'history:use:filter': 172, 'history:use:grid': 118, 'history:use:nothing': 129, 'history:use:predict_data': 81, 'history:use:predict_elsewhere': 145, 'history:use:score': 129, 'history:via_attribute_assignment': 183, 'history:via_set_params': 205, 'fit_raised:vspline:ValueError': 32, 'explicit_forces_at_the_data:spline:other_order': 256, 'explicit_forces_at_the_data:spline:same_order': 64, 'explicit_forces_at_the_data:vspline:other_order': 256, 'explicit_forces_at_the_data:vspline:same_order': 64, 'forces_container:list_of_arrays': 96, 'forces_container:strided_columns': 224, 'forces_container:tuple_of_2d_arrays': 96, 'forces_container:tuple_of_arrays': 96, 'forces_container:tuple_of_lists': 96, 'forces_order:chain_spline:np_unique': 32, 'forces_order:chain_spline:reversed': 32, 'forces_order:chain_spline:same_order': 32, 'forces_order:chain_spline:shuffled': 32, 'forces_order:chain_spline:sorted': 32, 'forces_order:chain_vspline:np_unique': 32, 'forces_order:chain_vspline:reversed': 32, 'forces_order:chain_vspline:same_order': 32, 'forces_order:chain_vspline:shuffled': 32, 'forces_order:chain_vspline:sorted': 32, 'forces_order:spline:np_unique': 32, 'forces_order:spline:reversed': 32, 'forces_order:spline:same_order': 32, 'forces_order:spline:shuffled': 32, 'forces_order:spline:sorted': 32, 'forces_order:vspline:np_unique': 32, 'forces_order:vspline:reversed': 32, 'forces_order:vspline:same_order': 32, 'forces_order:vspline:shuffled': 32, 'forces_order:vspline:sorted': 32, 'spelling:knn_k:int32': 16, 'spelling:knn_k:int64': 16, 'spelling:knn_k:int8': 16, 'spelling:knn_k:uint8': 16, 'spelling:scipy_rescale:bool(False)': 16, 'spelling:scipy_rescale:bool(True)': 16, 'spelling:scipy_rescale:int(False)': 16, 'spelling:scipy_rescale:int(True)': 16, 'spelling:spline_mindist:0-d array': 16, 'spelling:spline_mindist:int': 16, 'spelling:spline_mindist:np.float32': 16, 'spelling:spline_mindist:np.int64': 16, 'spelling:trend_degree:0-d array': 16, 'spelling:trend_degree:int32': 16, 'spelling:trend_degree:int64': 16, 'spelling:trend_degree:uint8': 16, 'spelling:vspline_mindist:0-d array': 16, 'spelling:vspline_mindist:int': 16, 'spelling:vspline_mindist:np.float32': 16, 'spelling:vspline_mindist:np.int64': 16, 'spelling:vspline_poisson:float32(0.5)': 16, 'spelling:vspline_poisson:int(-1)': 16, 'spelling:vspline_poisson:int(0)': 16, 'spelling:vspline_poisson:int(1)': 16, 'spelling:vspline_poisson:int64(-1)': 16, 'spelling:vspline_poisson:int64(0)': 16, 'spelling:vspline_poisson:ndarray(0.25)': 16, 'spelling:vspline_poisson:ndarray(1)': 16, 'errstate_raise:chain': 53, 'errstate_raise:forces_order': 53, 'errstate_raise:knn': 53, 'errstate_raise:scipy': 53, 'errstate_raise:spline': 53, 'errstate_raise:trend_poly': 53, 'errstate_raise:vector': 53, 'errstate_raise:vspline': 53, 'judged_inside_a_large_query:chain': 18, 'judged_inside_a_large_query:knn': 24, 'judged_inside_a_large_query:scipy': 12, 'judged_inside_a_large_query:spline': 12, 'judged_inside_a_large_query:vector': 6, 'judged_inside_a_large_query:vspline': 6, 'large_predict:knn:131073': 2, 'large_predict:knn:200000': 2, 'large_predict:knn:400x400': 2, 'large_predict:knn:450x600': 2, 'large_predict:chain_knn:131073': 2, 'large_predict:chain_knn:200000': 2, 'large_predict:chain_knn:400x400': 2, 'large_predict:chain_knn:450x600': 2, 'large_predict:vector_knn:131073': 2, 'large_predict:vector_knn:200000': 2, 'large_predict:vector_knn:400x400': 2, 'large_predict:vector_knn:450x600': 2, 'large_predict:spline:131073': 2, 'large_predict:spline:200000': 2, 'large_predict:spline:400x400': 2, 'large_predict:spline:450x600': 2, 'large_predict:vspline:131073': 2, 'large_predict:vspline:200000': 2, 'large_predict:vspline:400x400': 2, 'large_predict:vspline:450x600': 2, 'large_predict:linear:131073': 2, 'large_predict:linear:200000': 2, 'large_predict:linear:400x400': 2, 'large_predict:linear:450x600': 2, 'large_predict:cubic:131073': 2, 'large_predict:cubic:200000': 2, 'large_predict:cubic:400x400': 2, 'large_predict:cubic:450x600': 2, 'large_predict:chain_spline:131073': 2, 'large_predict:chain_spline:200000': 2, 'large_predict:chain_spline:400x400': 2, 'large_predict:chain_spline:450x600': 2},
 }
 JOBS = {"quick": 1, "thorough": 16}
 CASE_TIMEOUT_S = 300
@@ -73,8 +81,8 @@ CASE_TIMEOUT_S = 300
 
 def plan(tier):
     if tier == "quick":
-        return collections.OrderedDict(spline=400, vspline=130, knn=150, scipy=200, chain=220, vector=90, trend_poly=300, sizes=64, history=288, forces_order=100, spellings=96)
-    return collections.OrderedDict(spline=8000, vspline=2600, knn=3000, scipy=4000, chain=4400, vector=1800, trend_poly=6000, sizes=640, history=5760, forces_order=2000, spellings=1920)
+        return collections.OrderedDict(spline=400, vspline=130, knn=150, scipy=200, chain=220, vector=90, trend_poly=300, sizes=64, history=288, forces_order=100, spellings=96, large_predict=8, errstate=72)
+    return collections.OrderedDict(spline=8000, vspline=2600, knn=3000, scipy=4000, chain=4400, vector=1800, trend_poly=6000, sizes=640, history=5760, forces_order=2000, spellings=1920, large_predict=160, errstate=1440)
 
 
 # ----------------------------------------------------------------------
@@ -85,6 +93,8 @@ class _State:
         self.records = {}
         self.polys = {}
         self.expect = {}
+        self.errstate_raise = False  # run the verde calls of the workload inside np.errstate(all='raise')
+        self.embed = None  # a declared large query: {'size', 'idx'} - the fitted points sit at positions idx of the query sequence
         self.vforce = {}  # VectorSpline2D: are the forces documented to sit at the data of this fit (tracked over the object's history)
 
 
@@ -340,6 +350,30 @@ def install(tap, run):
                 worst = max(worst, err / tol)
         return worst
 
+    def at_data(rec, ev):
+        """
+        The predictions of this call at the fitted points: (components, index) when the call was made at exactly the fitted coordinates
+        (index None) or at a declared large query whose positions `index` hold the fitted points (verified here); None otherwise.
+        """
+        coordinates = ev.args["coordinates"]
+        if rec.same_points(coordinates):
+            return _components(ev.result), None
+        emb = _S.embed
+        if emb is None:
+            return None
+        try:
+            qe, qn = _seq(coordinates[0]), _seq(coordinates[1])
+        except Exception:  # noqa: BLE001
+            return None
+        idx = emb["idx"]
+        if qe.size != emb["size"] or idx.size != rec.east.size or not (np.array_equal(qe[idx], rec.east) and np.array_equal(qn[idx], rec.north)):
+            return None
+        comps = _components(ev.result)
+        if any(c.size != qe.size for c in comps):
+            return comps, None  # wrong size: let the comparison report it
+        run.count("judged_inside_a_large_query:" + rec.kind)
+        return [c[idx] for c in comps], idx
+
     # -- spline family ---------------------------------------------------
     def post_spline_fit(ev):
         if ev.exc is not None:
@@ -404,7 +438,8 @@ def install(tap, run):
         if rec is None:
             run.count("predict_without_fit_record:" + monitor)
             return
-        if not rec.same_points(ev.args["coordinates"]):
+        found = at_data(rec, ev)
+        if found is None:
             run.count("predict_elsewhere:" + rec.kind)
             return
         if not rec.exact:
@@ -425,7 +460,7 @@ def install(tap, run):
         if not info["rel_tol"] < INFORMATIVE:
             run.count("skipped:uninformative:" + rec.kind)
             return
-        preds = _components(ev.result)
+        preds = found[0]
         tol = info["rel_tol"] * rec.scale()
         ratio = compare(monitor, rec, preds, [tol] * len(rec.data), {"kappa": info["kappa"]}, key="%s:kappa_1e%02d" % (rec.kind, dec))
         run.count("informative_kappa_bin:%s:1e%02d" % (rec.kind, dec))
@@ -456,7 +491,8 @@ def install(tap, run):
         if rec is None:
             run.count("predict_without_fit_record:knn")
             return
-        if not rec.same_points(ev.args["coordinates"]):
+        found = at_data(rec, ev)
+        if found is None:
             run.count("predict_elsewhere:knn")
             return
         if not rec.exact:
@@ -468,7 +504,7 @@ def install(tap, run):
         if not rec.finite():
             run.count("skipped:non_finite_data:knn")
             return
-        ratio = compare("knn_exact", rec, _components(ev.result), [0.0], key="knn")
+        ratio = compare("knn_exact", rec, found[0], [0.0], key="knn")
         if ratio is not None:
             nontrivial(rec, "exact")
 
@@ -490,13 +526,14 @@ def install(tap, run):
         if rec is None:
             run.count("predict_without_fit_record:scipy")
             return
-        if not rec.same_points(ev.args["coordinates"]):
+        found = at_data(rec, ev)
+        if found is None:
             run.count("predict_elsewhere:scipy")
             return
         if not rec.distinct():
             run.count("skipped:duplicate_points:scipy")
             return
-        preds = _components(ev.result)
+        preds = found[0]
         tol = SCIPY_RTOL * rec.scale()
         rec.excused, rec.excused_nan = None, False
         if not rec.finite():
@@ -629,11 +666,13 @@ def install(tap, run):
         remember(obj, Rec(obj, "chain", a["coordinates"], a["data"], a["weights"], {"desc": desc, "steps": [s for _, s in obj.steps]}, exact,
                           "" if exact else "last step not an exact interpolator / a step without predict"))
 
-    def step_magnitudes(ev, ncomp):
+    def step_magnitudes(ev, ncomp, idx=None):
         mags = [0.0] * ncomp
         for child in ev.children:
             if child.exc is None and child.name.endswith(".predict"):
                 comps = _components(child.result)
+                if idx is not None:
+                    comps = [c[idx] if c.size > idx.max() else c for c in comps]
                 for k in range(min(ncomp, len(comps))):
                     mags[k] += maxabs(comps[k])
         return mags
@@ -645,7 +684,8 @@ def install(tap, run):
         if rec is None:
             run.count("predict_without_fit_record:chain")
             return
-        if not rec.same_points(ev.args["coordinates"]):
+        found = at_data(rec, ev)
+        if found is None:
             run.count("predict_elsewhere:chain")
             return
         rec.last_tol = None
@@ -663,11 +703,11 @@ def install(tap, run):
         if tols is None:
             run.count("skipped:chain:" + str(why)[:40])
             return
-        preds = _components(ev.result)
+        preds = found[0]
         if len(tols) != len(rec.data):
             run.count("skipped:chain:component_mismatch")
             return
-        mags = step_magnitudes(ev, len(rec.data))
+        mags = step_magnitudes(ev, len(rec.data), found[1])
         total = [t + CHAIN_ROUND * EPS * max(maxabs(d), m) for t, d, m in zip(tols, rec.data, mags)]
         if any(not t < INFORMATIVE * maxabs(d) for t, d in zip(total, rec.data) if maxabs(d) > 0):
             run.count("skipped:uninformative:chain")
@@ -694,7 +734,8 @@ def install(tap, run):
         if rec is None:
             run.count("predict_without_fit_record:vector")
             return
-        if not rec.same_points(ev.args["coordinates"]):
+        found = at_data(rec, ev)
+        if found is None:
             run.count("predict_elsewhere:vector")
             return
         if not rec.exact:
@@ -710,13 +751,31 @@ def install(tap, run):
         if tols is None or len(tols) != len(rec.data):
             run.count("skipped:vector:" + str(why)[:40])
             return
-        ratio = compare("vector_exact", rec, _components(ev.result), tols, {"components": rec.cfg["desc"]}, key="vector",
+        ratio = compare("vector_exact", rec, found[0], tols, {"components": rec.cfg["desc"]}, key="vector",
                         excused=_excused(ev.obj, len(rec.data), rec.east.size))
         if ratio is not None:
             run.observe_max("err_over_tol:vector", ratio)
             run.seen("vector_structures", rec.cfg["desc"])
             nontrivial(rec, "exact")
 
+    def calm(fn):
+        """Monitors decide under numpy's default floating-point error handling, whatever np.errstate the monitored caller runs in."""
+        if fn is None:
+            return None
+
+        def hook(ev):
+            with np.errstate(divide="warn", over="warn", under="ignore", invalid="warn"), warnings.catch_warnings():
+                warnings.simplefilter("ignore")
+                return fn(ev)
+        return hook
+
+    real_tap = tap
+
+    class _CalmTap:
+        def method(self, cls, name, post=None, pre=None, **kwargs):
+            return real_tap.method(cls, name, post=calm(post), pre=calm(pre), **kwargs)
+
+    tap = _CalmTap()
     tap.method(verde.Spline, "fit", post=post_spline_fit)
     tap.method(verde.Spline, "predict", post=lambda ev: judge_green(ev, "spline_exact"))
     tap.method(verde.VectorSpline2D, "fit", post=post_vspline_fit, pre=pre_vspline_fit)
@@ -827,6 +886,11 @@ def _composite_size(rng, lo, hi, **kwargs):
     return n
 
 
+def _ctx():
+    """The floating-point error mode the caller of verde is in: numpy's default, or - stream errstate - every error raising."""
+    return np.errstate(all="raise") if _S.errstate_raise else contextlib.nullcontext()
+
+
 def _fit_predict(est, coords, data, rng, run, weights=None, overwrite=()):
     """
     fit, then predict at the fitted coordinates. Half of the time the caller's arrays named in *overwrite* ("coordinates",
@@ -834,7 +898,7 @@ def _fit_predict(est, coords, data, rng, run, weights=None, overwrite=()):
     documentation describes as copied (force_coords_ of the splines, tree_/data_ of KNeighbors) must not alias them.
     """
     saved = tuple(np.array(np.asarray(c), copy=True, order="K") for c in coords)
-    with warnings.catch_warnings():
+    with warnings.catch_warnings(), _ctx():
         warnings.simplefilter("ignore")
         if weights is None:
             est.fit(coords, data)
@@ -1216,14 +1280,76 @@ def _history(run, rng, verde, index):
     run.sample("history", {"mode": mode, "kind": kind, "estimator": _describe(est), "n_first": n, "n_second": n2})
 
 
+ERRSTATE_BASES = ("spline", "vspline", "knn", "scipy", "chain", "vector", "trend_poly", "forces_order")
+LARGE_KINDS = ("knn", "chain_knn", "vector_knn", "spline", "vspline", "linear", "cubic", "chain_spline")
+LARGE_SHAPES = ((131073,), (200000,), (400, 400), (450, 600))   # more than 2**17 points in one predict call
+
+
+def _large_predict(run, rng, verde, index):
+    """One predict call on more than 2**17 points; the fitted points sit at declared positions of the query and are judged there."""
+    kind = LARGE_KINDS[index % len(LARGE_KINDS)]
+    shape = LARGE_SHAPES[(index + index // len(LARGE_KINDS)) % len(LARGE_SHAPES)]
+    total = int(np.prod(shape))
+    vector = kind in ("vspline", "vector_knn")
+    n = int(rng.integers(20, 60 if kind == "vspline" else 120))
+    east, north, _ = _cloud(rng, n, collinear_ok=False)
+    comps = tuple(_field(run, rng, east, north) for _ in range(2 if vector else 1))
+    spacing = np.hypot(np.ptp(east), np.ptp(north)) / np.sqrt(n)
+    with warnings.catch_warnings():
+        warnings.simplefilter("ignore")
+        knn = lambda: verde.KNeighbors(k=1, reduction=[np.mean, np.median][int(rng.integers(0, 2))])  # noqa: E731
+        if kind == "knn":
+            est = knn()
+        elif kind == "chain_knn":
+            est = verde.Chain([("trend", verde.Trend(int(rng.integers(0, 3)))), ("interp", knn())])
+        elif kind == "vector_knn":
+            est = verde.Vector([knn(), verde.Chain([("trend", verde.Trend(1)), ("interp", knn())])])
+        elif kind == "spline":
+            est = verde.Spline()
+        elif kind == "vspline":
+            est = verde.VectorSpline2D(poisson=float(rng.uniform(-1, 1)), mindist=float(spacing * gen.log_uniform(rng, 0.1, 1.5)))
+        elif kind == "linear":
+            est = verde.Linear(rescale=bool(rng.random() < 0.5))
+        elif kind == "cubic":
+            est = verde.Cubic(rescale=bool(rng.random() < 0.5))
+        else:
+            est = verde.Chain([("trend", verde.Trend(int(rng.integers(0, 3)))), ("interp", verde.Spline())])
+        est.fit((east, north), comps if vector else comps[0])
+        qe = rng.uniform(east.min(), east.max(), total)
+        qn = rng.uniform(north.min(), north.max(), total)
+        idx = rng.choice(total, n, replace=False)
+        special = [p for p in dict.fromkeys((total - 1, 131072, 0, 131071, total - 2)) if p not in idx][:3]
+        idx[:len(special)] = special  # fitted points in the very last positions and right at the 2**17 boundary
+        qe[idx], qn[idx] = east, north
+        _S.embed = {"size": total, "idx": idx}
+        order = "F" if len(shape) == 2 and rng.random() < 0.3 else "C"
+        query = (np.array(qe.reshape(shape), order=order), np.array(qn.reshape(shape), order=order))
+        pred = est.predict(query)
+    run.count("large_predict:%s:%s" % (kind, "x".join(str(v) for v in shape)))
+    first = pred[0] if isinstance(pred, tuple) else pred
+    run.sample("large_predict", {"estimator": _describe(est), "query_shape": list(shape), "n_data": n, "positions_of_the_data_in_the_query": idx,
+                                 "data": comps[0], "prediction_there": np.asarray(first).ravel()[idx]})
+
+
 def run_case(run, tap, stream, index, rng):
     import scipy.spatial
     import verde
+
+    if stream == "errstate":
+        # a caller that has numpy's floating-point errors set to raise: the same exact-interpolation workloads inside np.errstate(all="raise")
+        base = ERRSTATE_BASES[index % len(ERRSTATE_BASES)]
+        run.count("errstate_raise:" + base)
+        _S.errstate_raise = True
+        try:
+            return run_case(run, tap, base, 7 + index // len(ERRSTATE_BASES), rng)
+        finally:
+            _S.errstate_raise = False
 
     _S.records.clear()
     _S.polys.clear()
     _S.expect.clear()
     _S.vforce.clear()
+    _S.embed = None
 
     if stream == "spline":
         n = _composite_size(rng, 3, 400)
@@ -1384,7 +1510,7 @@ def run_case(run, tap, stream, index, rng):
             layout, (e, nn, d) = _shape(rng, (east, north, data))
             est = verde.Trend(degree)
             _S.polys[id(est)] = {"ref": weakref.ref(est), "degree": deg_p, "coefs": coefs}
-            with warnings.catch_warnings():
+            with warnings.catch_warnings(), _ctx():
                 warnings.simplefilter("ignore")
                 est.fit((e, nn), d)
                 est.predict((e, nn))
@@ -1399,6 +1525,8 @@ def run_case(run, tap, stream, index, rng):
         run.sample("trend_poly", {"degree": degree, "polynomial_degree": deg_p, "coefficients": coefs, "n": n, "easting": east, "northing": north,
                                   "data": data, "query_easting": qe, "query_northing": qn, "prediction": np.asarray(pred),
                                   "kappa_V": (_lookup(est).info or {}).get("kappa")})
+    elif stream == "large_predict":
+        _large_predict(run, rng, verde, index)
     elif stream == "history":
         _history(run, rng, verde, index)
     elif stream == "forces_order":
